@@ -174,6 +174,15 @@ def rand_event(rng, n_read, n_iso, known_types, malformed=False):
 def rand_events(rng, n_read, n_iso, known_types, malformed=False):
     k = rng.choice([0, 1, 1, 2, 2, 3, 4])
     evs = [rand_event(rng, n_read, n_iso, known_types, malformed and rng.random() < 0.5) for _ in range(k)]
+    if n_iso > 0 and rng.random() < 0.25:
+        # several isoform micro introns retained in ONE read exon (JunctionComparator emits one event per isoform intron,
+        # in ascending order), in any exon: the first (0), an inner one, the LAST (n_read: no read intron follows it)
+        ex = rng.choice([0, n_read, rng.randint(0, n_read)])
+        a = rng.randint(0, n_iso - 1)
+        burst = [{"t": "fake_micro_intron_retention", "iso": [j, j], "read": [ABSENT, ex]}
+                 for j in range(a, min(n_iso, a + rng.choice([1, 2, 2, 3])))]
+        pos = rng.randint(0, len(evs))
+        evs = evs[:pos] + burst + evs[pos:]
     return evs
 
 
